@@ -174,8 +174,56 @@ def prefix_pair_case(draw, formats, tier):
     return case
 
 
+@st.composite
+def far_reuse_case(draw, formats, tier, tolerances=None):
+    """A big shape drawn first and a copy k = 8..200 times smaller (same or another glyph) that is filled with a userSpaceOnUse
+    gradient spanning the viewBox. Painting the copy with the donor's outline means mapping the gradient by the *inverse* of
+    the reuse transform: its coordinates are multiplied by k and leave int16 - the encoder's fallback for a gradient that
+    does not fit (write_font._migrate_paths_to_ufo_glyphs) is taken, which floating artwork in a unit viewBox never reaches."""
+    from ..gen_svg import cmds_bbox, gradient_paint, transform_cmds, unit_shape
+    from ..geom import rotate
+
+    upem = draw(st.sampled_from([1000, 1024, 2048, 4096, 8192]))
+    desc = -draw(st.sampled_from([0, 0, upem // 5]))
+    asc = upem + desc if draw(st.booleans()) else draw(st.integers(upem * 3 // 4, upem))
+    cfg = {"upem": upem, "ascender": asc, "descender": desc, "width": draw(st.sampled_from([0, upem, upem // 2])), "linegap": 0,
+           "color_format": draw(st.sampled_from(list(formats))), "transform": [1, 0, 0, 1, 0, 0], "reuse_tolerance": draw(st.sampled_from(tolerances or [0.1, 0.1, 0.5])),
+           "clipbox_quantization": draw(st.sampled_from([None, 1, 32])), "keep_glyph_names": draw(st.booleans()), "pretty_print": False}
+    vbs = float(draw(st.sampled_from([100, 128, 1000, 24])))
+    vb = [0.0, 0.0, vbs, vbs]
+    unit = draw(unit_shape(("polygon", "cubic", "quad", "rect")))
+    R = draw(st.floats(0.25, 0.4)) * vbs
+    # The reuse transform is x -> (x - e) / k + ..., its inverse translates by about -k * (copy centre): reuse is abandoned when
+    # that leaves 16.16, so the copy sits within 32768 / k of the font origin (left end of the baseline) while gradient points
+    # further away than that overflow int16 once multiplied by k.
+    emh = asc - desc
+    f = draw(st.sampled_from([0.25, 0.4, 0.6, 0.9]))
+    k = max(3, int(32768 / (f * emh)))
+    big = transform_cmds(unit, (R, 0, 0, R, vbs * draw(st.floats(0.42, 0.58)), vbs * draw(st.floats(0.42, 0.58))))
+    kind = draw(st.sampled_from(["scale", "scale", "mirror", "rot90"]))
+    r = R / k
+    m = {"scale": (r, 0, 0, r), "mirror": (-r, 0, 0, r), "rot90": (0, r, -r, 0)}[kind]
+    near = draw(st.sampled_from([0.5, 0.8, 0.8, 1.3]))
+    sx = vbs * f * near * draw(st.floats(0.1, 0.7))
+    sy = vbs * (asc / emh - f * near * draw(st.floats(-0.2, 0.7)))
+    small = transform_cmds(unit, m + (sx, min(max(sy, 0.02 * vbs), 0.98 * vbs)))
+    span = (vbs * draw(st.floats(0.0, 0.3)), vbs * draw(st.floats(0.0, 0.3)), vbs * draw(st.floats(0.7, 1.0)), vbs * draw(st.floats(0.7, 1.0)))
+    grad = draw(gradient_paint({}, span).filter(lambda p: p["units"] == "user"))
+    if draw(st.booleans()):
+        grad["gt"] = None
+    bigfill = {"k": "solid", "c": "#%06x" % draw(st.integers(0, 0xFFFFFF))} if draw(st.booleans()) else draw(paint_grid(cmds_bbox(big)))
+    donor = {"t": "p", "d": big, "fill": bigfill, "op": 1.0, "tag": "lib0:identity"}
+    copy = {"t": "p", "d": small, "fill": grad, "op": 1.0, "tag": "lib0:far_" + kind}
+    if draw(st.booleans()):
+        sources = [{"model": {"vb": vb, "nodes": [donor, copy]}, "cps": [0xE000]}]
+    else:
+        sources = [{"model": {"vb": vb, "nodes": [donor]}, "cps": [0xE000]}, {"model": {"vb": vb, "nodes": [copy]}, "cps": [0xE001]}]
+    return {"cfg": cfg, "sources": sources}
+
+
 def cases(tier):
-    return st.one_of(vector_case(FORMATS, tier), vector_case(FORMATS, tier), vector_case(FORMATS, tier), vector_case(FORMATS, tier), grid_case(FORMATS, tier), prefix_pair_case(FORMATS, tier))
+    return st.one_of(vector_case(FORMATS, tier), vector_case(FORMATS, tier), vector_case(FORMATS, tier), vector_case(FORMATS, tier), grid_case(FORMATS, tier), prefix_pair_case(FORMATS, tier),
+                     far_reuse_case(FORMATS, tier), far_reuse_case(FORMATS, tier))
 
 
 def shrink(case):
